@@ -99,6 +99,14 @@ def mkEnv (crude : Bool) (opps : List (Text × List Nat)) : Env :=
     isWs := isWsStd
     opps := fun stripped => (opps.lookup stripped).getD [] }
 
+/-- the model's own `linebreaks` (TextwrapModel/Linebreak.lean on the regenerated tables) next to
+    what the real crate returned for the same stripped text: empty when they agree on every entry,
+    otherwise a suffix that makes the reply differ from the real output -/
+def lbCheck (opps : List (Text × List Nat)) : String :=
+  match opps.find? fun e => ownOpps lbTables e.1 != e.2 with
+  | some e => s!";lb=0[{showText e.1}: model {showNats (ownOpps lbTables e.1)} real {showNats e.2}]"
+  | none => ""
+
 /-- minima oracle: what the real `smawk` returned for this very fragment list (recorded by the
     guarded hook); falls back to the model's own `smawk` (TextwrapModel/Smawk.lean) when the table has no entry. -/
 def mkMinima (pen : Penalties) (tbl : List (List (UInt64 × UInt64 × UInt64) × List UInt64 × List Nat)) :
@@ -237,6 +245,8 @@ def handle (crude : Bool) (line : String) : String :=
     let text := parseText t
     let env := mkEnv crude [(stripAnsi text, parseNats opps)]
     showOpt showWords (findWords env (if sep == "u" then .unicode else .ascii) text)
+      ++ (if sep == "u" then lbCheck [(stripAnsi text, parseNats opps)] else "")
+  | ["lb", t] => showNats (ownOpps lbTables (parseText t))
   | ["split", sp, ws] =>
     showOpt showWords (splitWords (mkEnv crude []) (parseSplitter sp) (parseWords ws))
   | ["points", sp, w] =>
@@ -261,6 +271,7 @@ def handle (crude : Bool) (line : String) : String :=
     let (opts, pen) := parseOpts o ii si
     let env := mkEnv crude (parseOppsTable opps)
     showOpt (fun ls => ",".intercalate (ls.map showLineD)) (wrapD env (mkMinima pen (parseMinTable mins)) opts (parseText t))
+      ++ lbCheck (parseOppsTable opps)
   | ["wrapline", path, nprev, o, ii, si, t, opps, mins] =>
     let (opts, pen) := parseOpts o ii si
     let env := mkEnv crude (parseOppsTable opps)
@@ -268,15 +279,15 @@ def handle (crude : Bool) (line : String) : String :=
     let n := nprev.toNat?.getD 0
     let r := if path == "slow" then wrapSingleLineSlow env mo opts (parseText t) n
              else wrapSingleLine env mo opts (parseText t) n
-    showOpt (fun ls => ",".intercalate (ls.map showLineD)) r
+    showOpt (fun ls => ",".intercalate (ls.map showLineD)) r ++ lbCheck (parseOppsTable opps)
   | ["fill", o, ii, si, t, opps, mins] =>
     let (opts, pen) := parseOpts o ii si
     let env := mkEnv crude (parseOppsTable opps)
-    showOpt showText (fill env (mkMinima pen (parseMinTable mins)) opts (parseText t))
+    showOpt showText (fill env (mkMinima pen (parseMinTable mins)) opts (parseText t)) ++ lbCheck (parseOppsTable opps)
   | ["fillslow", o, ii, si, t, opps, mins] =>
     let (opts, pen) := parseOpts o ii si
     let env := mkEnv crude (parseOppsTable opps)
-    showOpt showText (fillSlow env (mkMinima pen (parseMinTable mins)) opts (parseText t))
+    showOpt showText (fillSlow env (mkMinima pen (parseMinTable mins)) opts (parseText t)) ++ lbCheck (parseOppsTable opps)
   | ["fillinplace", w, t] =>
     showOpt showText (fillInplace Float (cwOf crude) (parseText t) (w.toNat?.getD 0))
   | ["nel", t] =>
@@ -288,14 +299,14 @@ def handle (crude : Bool) (line : String) : String :=
   | ["refill", o, ii, si, t, opps, mins] =>
     let (opts, pen) := parseOpts o ii si
     let env := mkEnv crude (parseOppsTable opps)
-    showOpt showText (refill env (mkMinima pen (parseMinTable mins)) opts (parseText t))
+    showOpt showText (refill env (mkMinima pen (parseMinTable mins)) opts (parseText t)) ++ lbCheck (parseOppsTable opps)
   | ["indent", t, p] => showText (indent (mkEnv crude []).isWs (parseText t) (parseText p))
   | ["dedent", t] => showText (dedent (mkEnv crude []).isWs (parseText t))
   | ["columns", o, ii, si, t, cols, l, m, r, opps, mins] =>
     let (opts, pen) := parseOpts o ii si
     let env := mkEnv crude (parseOppsTable opps)
     showOpt showLines (wrapColumns env (mkMinima pen (parseMinTable mins)) opts (parseText t)
-      (cols.toNat?.getD 0) (parseText l) (parseText m) (parseText r))
+      (cols.toNat?.getD 0) (parseText l) (parseText m) (parseText r)) ++ lbCheck (parseOppsTable opps)
   | ["std_lines", t] => showLines (lines (parseText t))
   | ["std_splitlf", t] => showLines (splitLF (parseText t))
   | ["std_splitcrlf", t] => showLines (splitCRLF (parseText t))
